@@ -424,6 +424,8 @@ inductive Op where
   | updDelegator (a v : Bytes) (delta : Int) (del : Bool)
   | createVal (a : Bytes) (v : Val)
   | updateVal (a : Bytes) (v : Val)
+  | setDlg (a d : Bytes) (stake token : Nat)          -- PartialCopy; UpdateDelegationFrom; UpdateValidator
+  | delegate (d a : Bytes) (amt : Int)                 -- StateDB.UpdateDelegation
   | statRewards (idx : Nat) (kind : Nat) (amount : Nat)   -- kind 0 AddRewards, 1 SetRewardsResidue, 2 ResetRewards
   | addWithdraw (w : WRec)
   | removeWithdraw (idx : List Nat)
@@ -600,6 +602,48 @@ def statReward (k : KStat) (kind amount : Nat) : KStat :=
   | 1 => { k with resid := amount }
   | _ => { k with dist := amount }
 
+/-! ### a validator's delegation list (Validator.UpdateDelegationFrom): sorted by delegator, binary-searched -/
+
+def stakeUnit : Nat := 1000000000000000000
+
+def Dlg.isEmpty (d : Dlg) : Bool := d.stake == 0 && d.token == 0
+
+def dfind : List Dlg → Bytes → Option Dlg
+  | [], _ => none
+  | y :: t, k => if y.delegator = k then some y else dfind t k
+
+/-- sorted insert (replacing an entry of the same delegator) -/
+def dinsert (x : Dlg) : List Dlg → List Dlg
+  | [] => [x]
+  | y :: t =>
+    if blt x.delegator y.delegator then x :: y :: t
+    else if x.delegator = y.delegator then x :: t
+    else y :: dinsert x t
+
+def dremove (k : Bytes) (l : List Dlg) : List Dlg := l.filter (fun y => y.delegator ≠ k)
+
+/-- the new list and the CurdFlag (0 Noop, 1 Create, 2 Update, 3 Delete) -/
+def dlgUpdate (l : List Dlg) (x : Dlg) : List Dlg × Nat :=
+  match dfind l x.delegator with
+  | none => if x.isEmpty then (l, 0) else (dinsert x l, 1)
+  | some _ => if x.isEmpty then (dremove x.delegator l, 3) else (dinsert x l, 2)
+
+/-- StateDB.UpdateValidator(new, current) -/
+def updateValF (s : St) (a : Bytes) (v : Val) : St :=
+  match getVal s a with
+  | some old =>
+    let s := putVal s a v
+    if stakeEqual v old then s else { s with stat := incrStat (decrStat s.stat old) v }
+  | none => s
+
+/-- StateDB.UpdateDelegator -/
+def updDelegatorF (P : Prim) (s : St) (a v : Bytes) (delta : Int) (del : Bool) : St :=
+  match getAcct P s a with
+  | some o =>
+    let dl := if del then o.dlgs.filter (· ≠ v) else sinsert v o.dlgs
+    putAcct s a { o with dlgs := dl, delBal := (Int.ofNat o.delBal + delta).toNat }
+  | none => s
+
 def step (P : Prim) (s : St) : Op → St
   | .setBalance a n => modAcct P s a (fun o => { o with balance := n })
   | .addBalance a n => modAcct P s a (fun o => { o with balance := o.balance + n })
@@ -616,22 +660,30 @@ def step (P : Prim) (s : St) : Op → St
   | .createContract a =>
     let bal := match rawAcct P s a with | some o => o.balance | none => 0
     putAcct s a { nonce := 1, balance := bal }
-  | .updDelegator a v delta del =>
-    match getAcct P s a with
-    | some o =>
-      let dl := if del then o.dlgs.filter (· ≠ v) else sinsert v o.dlgs
-      putAcct s a { o with dlgs := dl, delBal := (Int.ofNat o.delBal + delta).toNat }
-    | none => s
+  | .updDelegator a v delta del => updDelegatorF P s a v delta del
   | .createVal a v =>
     match getVal s a with
     | some _ => s
     | none => let s := putVal s a v; { s with stat := incrStat s.stat v }
-  | .updateVal a v =>
+  | .updateVal a v => updateValF s a v
+  | .setDlg a d stake token =>
     match getVal s a with
-    | some old =>
-      let s := putVal s a v
-      if stakeEqual v old then s else { s with stat := incrStat (decrStat s.stat old) v }
+    | some old => updateValF s a { old with dlgs := (dlgUpdate old.dlgs ⟨d, stake, token⟩).1 }
     | none => s
+  | .delegate d a amt =>
+    if amt = 0 then s else
+    match getVal s a with
+    | none => s
+    | some val =>
+      let df := dfind val.dlgs d
+      if df.isNone && amt < 0 then s else
+      let cur := df.getD ⟨d, 0, 0⟩
+      let tok := (Int.ofNat cur.token + amt).toNat
+      let stk := tok / stakeUnit
+      let delta : Int := Int.ofNat stk - Int.ofNat cur.stake
+      let r := dlgUpdate val.dlgs ⟨d, stk, tok⟩
+      let nv := { val with token := (Int.ofNat val.token + amt).toNat, stake := (Int.ofNat val.stake + delta).toNat, dlgs := r.1 }
+      updDelegatorF P (updateValF s a nv) d a amt (r.2 == 3)
   | .statRewards i kind amount => { s with stat := s.stat.modify i (fun k => statReward k kind amount) }
   | .addWithdraw w => { s with queue := s.queue ++ [w] }
   | .removeWithdraw idx => { s with queue := removeIdx s.queue idx }
